@@ -7,6 +7,8 @@ import (
 	"fmt"
 	"strings"
 
+	"github.com/AdguardTeam/urlfilter/filterutil"
+
 	"verifsim/core"
 )
 
@@ -20,6 +22,21 @@ var AllHosts = []string{
 	"test.co.uk", "ads.test.co.uk", "a1b2c3.io", "shop.example.org",
 	"media.cdn.example.net", "tracker.io", "stats.tracker.io", "banner.shop.example.org",
 	"trackertracker.io", "localhost",
+}
+
+// The index structures key on 32-bit djb2 hashes (host names in the DNS
+// engine's table, 5-byte windows in the shortcuts table, $domain values).  Two
+// pairs of colliding keys (found offline by enumeration) are added to the host
+// alphabet, so that "same bucket, different key" is an everyday event instead
+// of a one-in-four-billion one.  They are verified at start-up and silently
+// dropped if the hash function under test no longer makes them collide.
+func init() {
+	if a, b := "c89959.example.org", "c2012306.example.org"; filterutil.FastHash(a) == filterutil.FastHash(b) {
+		AllHosts = append(AllHosts, a, b)
+	}
+	if a, b := "o0-4v", "o2o64"; filterutil.FastHashBetween(a, 0, 5) == filterutil.FastHashBetween(b, 0, 5) {
+		AllHosts = append(AllHosts, a+"x.com", b+"x.com")
+	}
 }
 
 var clientRuleVals = []string{
